@@ -16,12 +16,27 @@ HIDE = {"none": "HNone", "false": "HFalse", "true": "HTrue", "out": "HOut", "std
         "err": "HErr", "stderr": "HStderr", "both": "HBoth"}
 
 # byte alphabet covering every lead/continuation class boundary of UTF-8
-BOUNDARY = [0x00, 0x41, 0x7F, 0x80, 0x8F, 0x90, 0x9F, 0xA0, 0xBF, 0xC0, 0xC1, 0xC2, 0xDF, 0xE0,
+BOUNDARY = [0x00, 0x0A, 0x0D, 0x41, 0x7F, 0x80, 0x8F, 0x90, 0x9F, 0xA0, 0xBF, 0xC0, 0xC1, 0xC2, 0xDF, 0xE0,
             0xE1, 0xEC, 0xED, 0xEE, 0xEF, 0xF0, 0xF1, 0xF3, 0xF4, 0xF5, 0xFF]
-FRAGS = [b"a", b"b", b"\n", "é".encode(), "€".encode(), "\U0001F600".encode(),
+FRAGS = [b"a", b"b", b"\n", b"\r", b"\r\n", b"x\r\ny\rz\n", "é".encode(), "€".encode(), "\U0001F600".encode(),
          "߿".encode(), "ࠀ".encode(), "퟿".encode(), "\U00010000".encode(),
          "\U0010ffff".encode(), b"\x80", b"\xff", b"\xc0\xaf", b"\xe0\x80", b"\xed\xa0\x80",
          b"\xf4\x90\x80\x80", b"\xc3", b"\xe2\x82", b"\xf0\x9f\x98", b"\xf0\x9f"]
+
+
+def _default_enc():
+    """the encoding the code picks when neither kwarg nor config names one, if modelled"""
+    import locale
+    try:
+        name = codecs.lookup(locale.getpreferredencoding(False)).name
+    except LookupError:
+        return None
+    return {"utf-8": "utf-8", "iso8859-1": "latin-1", "ascii": "ascii"}.get(name)
+
+
+DEFAULT_ENC = _default_enc()
+BOUNDARY25 = [0x00, 0x41, 0x7F, 0x80, 0x8F, 0x90, 0x9F, 0xA0, 0xBF, 0xC0, 0xC1, 0xC2, 0xDF, 0xE0,
+              0xE1, 0xEC, 0xED, 0xEE, 0xEF, 0xF0, 0xF1, 0xF3, 0xF4, 0xF5, 0xFF]   # exhaustive decoder sweep
 
 
 def nl(xs):
@@ -134,7 +149,11 @@ class C02(Prop):
     assumptions = [
         "OS contract (layer 3, assumed): a pipe/pty read returns empty (pty: EIO) only after every writer "
         "closed and the buffer is drained; reads deliver the written bytes in order without loss",
-        "encodings utf-8, latin-1, ascii; UTF-16 and other stateful codecs not modelled",
+        "Coq model: encodings utf-8, latin-1, ascii (none of them ever takes the per-read fallback of "
+        "read_proc_output).  Other codecs are tested, not proved: shift_jis, gbk, utf-8-sig and BOM-bearing "
+        "utf-16/utf-32 decode incrementally; BOM-less utf-16/utf-32 make the incremental decoder raise, so "
+        "the code falls back to decoding read by read -- for those streams a character (or surrogate pair) cut "
+        "by a read boundary still comes out as replacement characters, i.e. the old F-C02 behaviour",
         "capture buffers are read only after the worker was joined (C08 invariant)",
         "since the F-C02 fix output is decoded by a codecs incremental decoder inside read_proc_output: a "
         "subclass overriding Runner.decode() no longer influences how OUTPUT is decoded (decode() is still "
@@ -176,7 +195,11 @@ class C02(Prop):
                 j += 1
         code = rng.choice([0, 0, 0, 1, 2, -9])
         evs.insert(rng.randrange(len(evs) + 1), ["exit", code])
+        enc_from = rng.choice(["kwarg", "kwarg", "config"])
+        if DEFAULT_ENC == enc and rng.random() < 0.3:
+            enc_from = "default"
         return {
+            "enc_from": enc_from,
             "events": evs, "enc": enc, "hide": rng.choice(list(HIDE)),
             "out_given": rng.random() < 0.3, "err_given": rng.random() < 0.3,
             "pty": pty, "async": rng.random() < 0.15, "warn": rng.random() < 0.5,
@@ -217,6 +240,7 @@ class C02(Prop):
         o = rc.run_scripted(dict(case))
         done = (not o["hang"]) and o["stdout"] is not None
         return {
+            "silent": o["out_other"] == "" and o["err_other"] == "",
             "done": done, "hang": o["hang"], "outcome": o["outcome"],
             "stdout": o["stdout"] or "", "stderr": o["stderr"] or "",
             "out_stream": o["out_stream"], "err_stream": o["err_stream"],
@@ -231,7 +255,7 @@ class C02(Prop):
         o = "(mkObs %s %s %s %s %s %s)" % (
             text(obs["stdout"]), text(obs["stderr"]), text(obs["out_stream"]), text(obs["err_stream"]),
             texts(obs["out_submits"]), texts(obs["err_submits"]))
-        return "(mk %s %s %s)" % (i, ct.b(obs["done"]), o)
+        return "(mk %s %s %s %s)" % (i, ct.b(obs["done"]), ct.b(obs.get("silent", True)), o)
 
     def nontrivial(self, case, obs):
         for who in ("out", "err"):
@@ -284,14 +308,66 @@ class C02(Prop):
 
     # ------------------------------------------------------------------ extra
     def extra_checks(self, tier, seed):
-        return [self._decoder_validation(tier, seed), self._real_children(tier, seed)]
+        return [self._decoder_validation(tier, seed), self._other_codecs(tier, seed),
+                self._real_children(tier, seed)]
+
+    def _other_codecs(self, tier, seed):
+        """Encodings outside the Coq model (shift_jis, gbk, BOM-bearing utf-16/32, utf-8-sig): scripted
+        runs through the real Runner, random cut sets, compared in Python with the decoding of the whole
+        stream.  BOM-less utf-16/utf-32 take the per-read fallback of read_proc_output (the incremental
+        decoders insist on a BOM), i.e. the old F-C02 behaviour: for them only cuts at code-unit
+        boundaries are generated."""
+        import random
+        rng = random.Random(seed + 29)
+        texts = ["日本語テキスト", "汉字 and ascii", "a\u00e9\u20ac\U0001F600z", "x", ""]
+        plans = [("shift_jis", lambda s: s.encode("shift_jis", "replace"), 1),
+                 ("gbk", lambda s: s.encode("gbk", "replace"), 1),
+                 ("utf-16", lambda s: s.encode("utf-16"), 1),                # with BOM
+                 ("utf-32", lambda s: s.encode("utf-32"), 1),
+                 ("utf-8-sig", lambda s: s.encode("utf-8-sig"), 1),
+                 ("utf-16", lambda s: s.encode("utf-16-le"), 2),             # BOM-less: fallback, aligned cuts
+                 ("utf-32", lambda s: s.encode("utf-32-le"), 4)]
+        reps = 4 if tier == "quick" else 40
+        fails, evals = [], 0
+        for enc, mk, align in plans:
+            for s in texts:
+                data = mk(s)
+                if align == 2 and any(0xD800 <= ord(ch) <= 0xDFFF or ord(ch) > 0xFFFF for ch in s):
+                    data = mk("".join(ch for ch in s if ord(ch) <= 0xFFFF))   # keep surrogate pairs whole
+                for _ in range(reps):
+                    cuts = sorted(set(c for c in (rng.randrange(0, len(data) + 1, align) for _ in range(3))
+                                      if 0 < c < len(data)))
+                    parts, last = [], 0
+                    for c in cuts + [len(data)]:
+                        if c > last:
+                            parts.append(list(data[last:c]))
+                        last = c
+                    who = rng.choice(["out", "err"])
+                    evs = [[who, p] for p in parts]
+                    evs.insert(rng.randrange(len(evs) + 1), ["exit", 0])
+                    hide = rng.choice(["none", "both"])
+                    case = {"events": evs, "enc": enc, "hide": hide, "out_given": hide == "none",
+                            "err_given": hide == "none", "pty": False, "async": False, "warn": True,
+                            "enc_from": rng.choice(["kwarg", "config"])}
+                    evals += 1
+                    o = rc.run_scripted(case)
+                    want = data.decode(enc, "replace")
+                    got = o["stdout"] if who == "out" else o["stderr"]
+                    mirror = o["out_stream"] if who == "out" else o["err_stream"]
+                    if o["hang"] or o["outcome"] != "Result" or got != want or \
+                            mirror != ("" if case["hide"] == "both" else want):
+                        fails.append({"case": case, "what": {"outcome": o["outcome"], "want": want, "got": got,
+                                                             "mirror": mirror}})
+        return {"name": "other-codecs", "evaluations": evals, "failures": fails[:5],
+                "note": "shift_jis, gbk, utf-16/utf-32 with BOM, utf-8-sig: arbitrary cut sets; BOM-less "
+                        "utf-16/utf-32 (per-read fallback): cuts at code-unit boundaries only"}
 
     def _decoder_validation(self, tier, seed):
         import random
         rng = random.Random(seed + 17)
         items = []
         for n in range(0, 4):
-            for t in itertools.product(BOUNDARY, repeat=n):
+            for t in itertools.product(BOUNDARY25, repeat=n):
                 items.append(("utf-8", bytes(t)))
         nrand = 4000 if tier == "quick" else 100000
         for _ in range(nrand):
@@ -334,6 +410,12 @@ class C02(Prop):
         cases.append({"n_out": 999, "n_err": 0, "kind": "straddle", "pty": False})
         cases.append({"n_out": 0, "n_err": 999, "kind": "straddle", "pty": False})
         cases.append({"n_out": 5000, "n_err": 0, "kind": "aligned", "pty": False})
+        cases.append({"kind": "crlf", "pty": False})
+        cases.append({"kind": "crlf", "pty": True})
+        cases.append({"kind": "utf16", "bom": False})
+        cases.append({"kind": "utf16", "bom": True})
+        cases.append({"kind": "sjis"})
+        cases.append({"kind": "unhidden"})
         reps = 1 if tier == "quick" else 5
         fails, evals = [], 0
         for c in cases * reps:
@@ -362,7 +444,46 @@ def payload(kind, n, tag):
     raise ValueError(kind)
 
 
+def special_child_case(c):
+    import io
+    k = c["kind"]
+    if k == "crlf":
+        r = rc.run_real("printf 'a\\r\\nb\\rc\\n'", pty=c["pty"], encoding="utf-8", hide=True, in_stream=False)
+        want = "a\r\r\nb\rc\r\n" if c["pty"] else "a\r\nb\rc\n"     # onlcr under a pty
+    elif k == "utf16":
+        data = ("a\u00e9\u20acz" * 300).encode("utf-16" if c["bom"] else "utf-16-le")   # 2400(+2) bytes: even reads
+        r = rc.run_real("printf '%s'" % "".join("\\%03o" % b for b in data), encoding="utf-16", hide=True,
+                        in_stream=False)
+        want = data.decode("utf-16", "replace")
+    elif k == "sjis":
+        data = ("\u65e5\u672c\u8a9e" * 400 + "a").encode("shift_jis")[1:]   # odd offset: 1000-byte reads cut characters
+        data = "x".encode() + ("\u65e5\u672c\u8a9e" * 400).encode("shift_jis")
+        r = rc.run_real("printf '%s'" % "".join("\\%03o" % b for b in data), encoding="shift_jis", hide=True,
+                        in_stream=False)
+        want = data.decode("shift_jis", "replace")
+    elif k == "unhidden":
+        out, err = rc.Recorder(), rc.Recorder()
+        r = rc.run_real("cat; echo oops >&2", encoding="utf-8", out_stream=out, err_stream=err, echo_stdin=True,
+                        in_stream=io.StringIO("xy\n"))
+        if r["hang"] or r["outcome"] != "Result":
+            return {"case": c, "what": "outcome %s" % r["outcome"]}
+        ok = r["stdout"] == "xy\n" and r["stderr"] == "oops\n" and err.text() == "oops\n" and \
+            sorted(out.text()) == sorted("xy\nxy\n")
+        return None if ok else {"case": c, "what": {"stdout": r["stdout"], "stderr": r["stderr"],
+                                                    "out_stream": out.text(), "err_stream": err.text()}}
+    if r["hang"] or r["outcome"] != "Result":
+        return {"case": c, "what": "outcome %s (%s)" % (r["outcome"], r.get("thread_excs"))}
+    if r["stdout"] != want:
+        k0 = next((i for i, (x, y) in enumerate(zip(r["stdout"], want)) if x != y), min(len(want), len(r["stdout"])))
+        return {"case": c, "what": {"at": k0, "got": r["stdout"][max(0, k0 - 5):k0 + 10],
+                                    "want": want[max(0, k0 - 5):k0 + 10], "got_len": len(r["stdout"]),
+                                    "want_len": len(want)}}
+    return None
+
+
 def real_child_case(c):
+    if c["kind"] in ("crlf", "utf16", "sjis", "unhidden"):
+        return special_child_case(c)
     out, enc = payload(c["kind"], c["n_out"], "o")
     err, _ = payload(c["kind"], c["n_err"], "e")
     # payload is shipped to the child in a file so the command line stays small
